@@ -23,11 +23,20 @@ def cache_fields(p):
     if init is None:
         raise AnalysisIncomplete("LinearCache.__init__ missing")
     fields = []
-    for n in ast.walk(init.node):
-        if isinstance(n, ast.Assign):
-            for t in n.targets:
-                if isinstance(t, ast.Attribute) and isinstance(t.value, ast.Name) and t.value.id == "self":
-                    fields.append(t.attr)
+    # the constructor and the helpers it calls on self (a shared _reset())
+    todo, seen = [init], set()
+    while todo:
+        m = todo.pop()
+        if id(m) in seen:
+            continue
+        seen.add(id(m))
+        for n in ast.walk(m.node):
+            if isinstance(n, ast.Assign):
+                for t in n.targets:
+                    if isinstance(t, ast.Attribute) and isinstance(t.value, ast.Name) and t.value.id == "self" and t.attr not in fields:
+                        fields.append(t.attr)
+            if isinstance(n, ast.Call) and isinstance(n.func, ast.Attribute) and isinstance(n.func.value, ast.Name) and n.func.value.id == "self" and n.func.attr in cc.methods:
+                todo.append(cc.methods[n.func.attr])
     if not fields:
         raise AnalysisIncomplete("LinearCache has no fields")
     return cc, fields
